@@ -67,6 +67,19 @@ def unit_text(path):
     the same contract text, and assumed under that contract in the other one)."""
     text = open(path).read()
     text = expand_parts(text)
+    mr = re.search(r'^@@derive-replace\s+(\S+)\s+(\S+)\s+(\S+)(?:\s+(.+?))?\s*$', text, re.M)
+    if mr:
+        # the other unit, with the whole `@@fn <name> ...` block (contract, loop invariants, hints) of one function
+        # replaced: the same extracted function body is verified here against a second contract
+        base = expand_parts(open(os.path.join(os.path.dirname(path), mr.group(1))).read())
+        block = open(os.path.join(VERIF, 'verus', mr.group(3))).read().rstrip('\n') + '\n'
+        ctx = r'(@@impl ' + re.escape(mr.group(4)) + r'\n(?:(?!@@end\n)[\s\S])*?)' if mr.group(4) else '()'
+        pat = re.compile(ctx + r'@@fn ' + re.escape(mr.group(2)) + r'\n(?:(?!@@fn |@@end\n)[\s\S])*')
+        if not pat.search(base):
+            raise SystemExit(f'{path}: @@derive-replace target fn {mr.group(2)} not found in {mr.group(1)}')
+        base = pat.sub(lambda mm: mm.group(1) + block, base, count=1)
+        head = '\n'.join(l for l in text.split('\n') if l.startswith('@@#'))
+        return head + '\n' + base
     m = re.search(r'^@@derive\s+(\S+)\s+(\S+)\s+(\S+)\s+(\d+)(?:\s+(.+?))?\s*$', text, re.M)
     if not m:
         return text
